@@ -193,6 +193,45 @@ fn worker(args: &[String]) -> i32 {
 
 /// Re-executes the explicit scenario of a replay file in a fresh process. The PRNG is not
 /// consulted. Exit 1 + VIOLATION line if the same clause fails again, 0 if it is gone.
+/// Debugging aid: executes a bare scenario file (not a replay file), prints its event log and
+/// whatever the property's check says about it.
+fn run_scenario(args: &[String]) -> i32 {
+    let file = args.get(2).expect("run <scenario file>");
+    let scratch = arg(args, "--scratch").expect("--scratch");
+    let sc: Scenario = match std::fs::read_to_string(file).map_err(|e| e.to_string()).and_then(|t| serde_json::from_str(&t).map_err(|e| e.to_string())) {
+        Ok(sc) => sc,
+        Err(e) => {
+            eprintln!("cannot read {}: {}", file, e);
+            return 2;
+        },
+    };
+    install_hook();
+    let mut env = Env::new(scratch_root(&format!("{}/w0", scratch), sc.seed));
+    match env.run(&sc) {
+        Ok(log) => {
+            for ev in &log {
+                println!("{}", serde_json::to_string(ev).unwrap_or_default());
+            }
+        },
+        Err(e) => eprintln!("harness error: {}", e.0),
+    }
+    let res = props::check(&sc, &mut env);
+    env.finish();
+    match res {
+        Err(e) => {
+            eprintln!("harness error: {}", e.0);
+            2
+        },
+        Ok(out) => {
+            for v in &out.violations {
+                println!("violation {}: {}", v.clause, v.detail);
+            }
+            println!("{} violation(s)", out.violations.len());
+            0
+        },
+    }
+}
+
 fn replay(args: &[String]) -> i32 {
     let file = args.get(2).expect("replay <file>");
     let scratch = arg(args, "--scratch").expect("--scratch");
@@ -309,6 +348,23 @@ fn selftest(args: &[String]) -> i32 {
     use scenario::*;
     let scratch = arg(args, "--scratch").expect("--scratch");
     let mut problems: Vec<String> = Vec::new();
+    // text-level helpers of the oracle
+    for (text, want) in [
+        ("{b/**,c}", vec!["b/**", "c"]),
+        ("{a,{b,c/**}}", vec!["a", "b", "c/**"]),
+        ("{a,b}c", vec!["{a,b}c"]),
+        ("{a}", vec!["{a}"]),
+        ("{[,]x,y}", vec!["[,]x", "y"]),
+        ("{a\\,b,c}", vec!["a\\,b", "c"]),
+        ("{a,b}/{c,d}", vec!["{a,b}/{c,d}"]),
+        ("{<a,b:1,2>,c}", vec!["{<a,b:1,2>,c}"]),
+        ("a", vec!["a"]),
+    ] {
+        let got = oracle::flatten_alternatives(text);
+        if got != want {
+            problems.push(format!("flatten_alternatives({:?}) = {:?}, expected {:?}", text, got, want));
+        }
+    }
     let tree = vec![
         Node { path: "a".into(), kind: Kind::Dir, mode: None },
         Node { path: "a/x".into(), kind: Kind::File, mode: None },
@@ -400,6 +456,7 @@ fn main() {
     let code = match args.get(1).map(|s| s.as_str()) {
         Some("worker") => worker(&args),
         Some("replay") => replay(&args),
+        Some("run") => run_scenario(&args),
         Some("partition") => {
             let g = wax::Glob::new(&args[2]).unwrap();
             let (p, r) = g.partition();
